@@ -42,7 +42,7 @@ def _apply(root: Path, edits):
         if old == "@reformat":
             p.write_text(transforms.reformat(s))
             continue
-        if old in ("@rename_all", "@commute_all", "@swapcmp_all", "@flipif_all", "@tempret_all", "@tempattr_all"):
+        if old in ("@rename_all", "@commute_all", "@swapcmp_all", "@flipif_all", "@tempret_all", "@tempattr_all", "@inline_all"):
             # every function of the file at once
             tree = ast.parse(s)
             quals = []
@@ -58,7 +58,8 @@ def _apply(root: Path, edits):
             for q in quals:
                 s2 = {"@rename_all": transforms.rename_locals, "@commute_all": transforms.commute_mult,
                       "@swapcmp_all": transforms.swap_compare, "@flipif_all": transforms.flip_if,
-                      "@tempret_all": transforms.temp_return, "@tempattr_all": transforms.temp_attr_store}[old](s, q)
+                      "@tempret_all": transforms.temp_return, "@tempattr_all": transforms.temp_attr_store,
+                      "@inline_all": transforms.inline_alias}[old](s, q)
                 if s2 is not None:
                     s = s2
                     done += 1
